@@ -15,6 +15,16 @@ OPS = ['canonicalize', 'standardize', 'fix_resonance', 'standardize_charges', 'n
 
 
 def state(m, light=False):
+    try:
+        st = _state(m, light)
+        st['broken'] = 0
+        return st
+    except Exception as e:   # the object itself is inconsistent (an adjacency that names a missing atom, ...)
+        g = {'atoms': [], 'bonds': []}
+        return {'heavy': [], 'q': 0, 'h': -1, 'ih': -1, 'bad': 0, 'xh': 0, 's': 'broken:' + type(e).__name__, 'kek': 1, 'bh': 0, 'g': g, 'ga': g, 'sa': '', 'broken': 1}
+
+
+def _state(m, light=False):
     heavy = Counter((a.atomic_number, a._isotope or 0) for a in m._atoms.values() if a.atomic_number != 1 or a._isotope not in (None, 1))  # D and T are kept
     ih = [a._implicit_hydrogens for a in m._atoms.values()]
     bad = sum(1 for x in ih if x is None)
@@ -194,6 +204,10 @@ def run(ck):
     for raw, want in docs:
         add('doc', raw, [('standardize', 1), ('standardize', 1)], 0, want=want)
     small = [s for s in corp if len(s) < 40]
+    # the same group twice on one atom (overlapping matches that share the any-atom of a rule)
+    for raw, want in docs:
+        if raw[0] == 'C' and want[0] == 'C' and len(raw) > 2 and raw[1] not in '=#(' and want[1] not in '=#(' and not any(ch.isdigit() or ch in '.| ' for ch in raw[1:] + want[1:]):
+            add('doc', f'C({raw[1:]}){raw[1:]}', [('standardize', 1), ('standardize', 1)], 0, want=f'C({want[1:]}){want[1:]}')
     for k, (raw, want) in enumerate(docs if not ck.quick else rnd.sample(docs, 40)):
         base = rnd.choice(small)
         ft = 0
